@@ -8,7 +8,7 @@ MANIFEST = dict(
    note="Trusted: Lean kernel; axioms propext/Classical.choice/Quot.sound only; Go's rune decoding of the tag (the model starts from []rune(tag)); unicode.IsSpace table as transcribed; the harness, matrix generator and comparer. The rule matrix is finite: the listed field types, one parameter per rule, pairs of rules (not longer tags), boundary probes only. Format rules (email/url/uuid/regex) are judged on blatant members/non-members. The documented meaning is this check's reading of docs/tags.md (required = presence).",
    design="DESIGN.md §5 C06")
 
-MODULES = ["Gozod.Proofs.C06", "Gozod.Proofs.C06G"]
+MODULES = ["Gozod.Proofs.C06", "Gozod.Proofs.C06G", "Gozod.Proofs.C06H"]
 THEOREMS = [
     "Gozod.C06.c06_no_panic", "Gozod.C06.c06_legacy_panics", "Gozod.C06.c06_parse_ws", "Gozod.C06.c06_rule_ws",
     "Gozod.C06.c06_parts_ws", "Gozod.C06.accept_pair", "Gozod.C06.accept_comm",
@@ -19,6 +19,9 @@ THEOREMS = [
     "Gozod.C06.c06_graph_recursive_unchecked", "Gozod.C06.c06_graph_recursive_required_nil",
     "Gozod.C06.c06_graph_nil_slice_rejected", "Gozod.C06.c06_graph_full_false", "Gozod.C06.c06_graph_map_recursion_diverges",
     "Gozod.C06.c06_graph_table_is_model", "Gozod.C06.c06_graph_table_partial", "Gozod.C06.c06_graph_table_covers",
+    # the schema is a function of the struct's own tags (Proofs/C06H.lean)
+    "Gozod.C06.c06_history_independent", "Gozod.C06.c06_history_prefix_stable", "Gozod.C06.c06_tag_ws_verdict",
+    "Gozod.C06.c06_rules_perm", "Gozod.C06.c06_accept_perm", "Gozod.C06.c06_tag_meaning_partial", "Gozod.C06.c06_tag_meaning_full_false",
 ]
 # witnesses that the known-finding region is exact; they stop checking when the library is repaired
 W_MODULES = ["Gozod.Proofs.C06W"]
@@ -348,6 +351,60 @@ def graph_table_from(ops, impl):
     return "\n".join(L) + "\n"
 
 # ------------------------------------------------------------------------------------------------
+# histories of FromStruct calls: families of struct types with ONE field of the same Go type whose tags
+# are near-identical — the same rule with a multi-word parameter unquoted / quoted / re-spaced /
+# re-ordered, the same two rules in both orders and with white space — built one after the other in a
+# fresh child process, in several orders.  The verdict of each struct must not depend on the history.
+
+TWIN_FAMILIES = [
+    # (name, Go field type, [tags], [probe strings])
+    ("enum2", "string", ["enum=read write", "enum='read write'", "enum= read  write ", "enum=write read", "enum=read", "enum=read write admin", "enum='read' 'write'"],
+     ["read", "write", "read write", "write read", "admin", "", "readwrite"]),
+    ("enum3", "string", ["enum=a b c", "enum='a b' c", "enum=a 'b c'", "enum='a b c'", "enum=c b a"],
+     ["a", "b", "c", "a b", "b c", "a b c", ""]),
+    ("includes", "string", ["includes=ab cd", "includes='ab cd'", "includes= ab cd", "includes=cd ab", "includes=ab"],
+     ["ab", "cd", "ab cd", "xab cdx", "xcdx", "", "a b"]),
+    ("startswith", "string", ["startswith=ab cd", "startswith='ab cd'", "startswith=cd ab", "startswith=ab"],
+     ["ab", "cd", "ab cd", "ab cdx", "abx", "cdab", ""]),
+    ("endswith", "string", ["endswith=ab cd", "endswith='ab cd'", "endswith=cd ab", "endswith=cd"],
+     ["ab", "cd", "ab cd", "xab cd", "xcd", "xab", ""]),
+    ("minmax", "string", ["min=3,max=5", "max=5,min=3", " min = 3 , max = 5 ", "min=3", "max=5", "min=5,max=3", "length=4", "min=4,max=4", "min='3',max='5'"],
+     ["", "aa", "aaa", "aaaa", "aaaaa", "aaaaaa"]),
+    ("required", "string", ["required", "required,min=3", "min=3,required", " required , min=3 ", "required,enum=aaa bbb", "enum=aaa bbb,required"],
+     ["", "aa", "aaa", "bbb", "aaa bbb"]),
+]
+
+def twin_histories(nvar, tier, seed):
+    """orders in which the variants of one family are built in one fresh process"""
+    ident = list(range(nvar))
+    hs = [ident, ident[::-1], ident + ident]
+    for k in range(1, nvar): hs.append(ident[k:] + ident[:k])
+    import random
+    rnd = random.Random(seed * 7919 + nvar)
+    for _ in range(3 if tier == "quick" else 20):
+        h = ident[:]; rnd.shuffle(h); hs.append(h)
+    out = []
+    for h in hs:
+        if h not in out: out.append(h)
+    return out
+
+def go_twins(fams):
+    q = json.dumps
+    L = ["// Code generated by vlib/c06.py (families of near-identical tags on one field type, for histories of FromStruct calls); DO NOT EDIT.", "", "package main", ""]
+    reg = ["var twinFamilies = []twinFamily{"]
+    for f, (name, gotype, tags, probes) in enumerate(fams):
+        vs = []
+        for i, tag in enumerate(tags):
+            L.append("type T%d_%d struct {\n\tF %s `gozod:%s`\n}" % (f, i, gotype, q(tag)))
+            vs.append("{Tag: %s, Mk: mkTwin[T%d_%d]}" % (q(tag), f, i))
+        L.append("")
+        reg.append("\t{Name: %s, Probes: []string{%s}, Variants: []twinVariant{%s}}," % (q(name), ", ".join(q(p) for p in probes), ", ".join(vs)))
+    reg.append("}")
+    return "\n".join(L + reg) + "\n"
+
+GEN_GO_TWINS = os.path.join(C.HARNESS, "cmd", "c06", "zz_twins.go")
+
+# ------------------------------------------------------------------------------------------------
 # Gen/TagTable.lean
 
 def lean_rule(tok):
@@ -405,12 +462,18 @@ def run_harness(res, prop="C06"):
     if blocks is None: return None, err
     write_if_changed(GEN_GO, go_matrix(blocks))
     write_if_changed(GEN_GO_GRAPH, go_graph(graph_roots()))
+    write_if_changed(GEN_GO_TWINS, go_twins(TWIN_FAMILIES))
     ok, out = C.build_harness(prop)
     if not ok: return None, "harness does not build against the current tree:\n" + out[-4000:]
     rundir = os.path.join(C.BUILD, "run", "%s-%s-%d" % (prop, res.tier, os.getpid()))
     shutil.rmtree(rundir, ignore_errors=True); os.makedirs(rundir)
     env = C.goenv(); env["GOMEMLIMIT"] = "8GiB"
-    rc, out = C.run([C.harness_bin(prop), "-seed", str(res.seed), "-tier", res.tier, "-out", rundir], env=env, timeout=3600)
+    with open(os.path.join(rundir, "histories.txt"), "w") as f:
+        for name, _, tags, _ in TWIN_FAMILIES:
+            for h in twin_histories(len(tags), res.tier, res.seed):
+                f.write("%s %s\n" % (name, ",".join(map(str, h))))
+    rc, out = C.run([C.harness_bin(prop), "-seed", str(res.seed), "-tier", res.tier, "-out", rundir,
+                     "-histories", os.path.join(rundir, "histories.txt")], env=env, timeout=3600)
     if rc != 0: return None, "harness failed (rc=%d):\n%s" % (rc, out[-4000:])
     ops = open(os.path.join(rundir, "ops.txt")).read().split("\n")
     impl = open(os.path.join(rundir, "impl.txt")).read().split("\n")
@@ -466,6 +529,9 @@ def make_key(ops, impl, model):
             return "graph:%s:%s" % ({"1": "accepted", "0": "rejected"}.get(im, re.split(r"[:_]", im)[0]), t[3])
         if t[1] == "gbuild":
             return "gbuild:%s:%s" % (im, t[2])
+        if t[1] == "hist":
+            # family, rule names of the tag; `first` = the struct is the first one built in its process
+            return "hist:%s:%s:%s" % (t[2], "first" if t[4] == "0" else "later", {"1": "accepted", "0": "rejected"}.get(im, re.split(r"[:_]", im)[0]))
         if t[1] == "tag":
             if im.startswith("panic"): return "tagparser:panic"
             if im.endswith("ws=0"): return "tagparser:whitespace"
@@ -477,6 +543,8 @@ def describe(op):
     t = C.op_body(op).split(" ")
     if t[1] == "cell":
         return "type M struct{ F <type> `gozod:\"<tag>\"` }; gozod.FromStruct[M]().Parse(M{F: <probe>}) — type/tag in the op comment; probe n:<2*value> s:<kind>:<bytes> e:<elements> nil; 1 = no issue on F"
+    if t[1] == "hist":
+        return "fresh process; FromStruct of the struct types of family %s (harness/cmd/c06/zz_twins.go) in the order %s; then the Parse in the op comment on struct #%s of that order" % (t[2], t[3], t[4])
     if t[1] in ("graph", "gbuild", "genv"):
         return "the Go expression in the op comment (struct types: harness/cmd/c06/zz_graph.go, root %s); value tokens: nil | node <V> <n> kid*n | list <n> elem*n" % t[2]
     return "tagparser.New().ParseTagString(<tag in the op comment>)"
